@@ -32,6 +32,7 @@ type Axiom struct {
 	Uses    []string // lemmas/axioms a lemma may use
 	PkgDir  string
 	Hints   []*E
+	Kind    string // "", rely, guar, ginv
 }
 
 type LoopSpec struct {
@@ -75,6 +76,7 @@ type Contract struct {
 	Line      int
 	Inline    bool
 	ExitHints []*E
+	NoCall    []string             // callee names that must not be called (e.g. blocking operations)
 	DynCallee map[string]*Contract // contracts assumed for calls through function-typed parameters
 	Bind      map[string]string    // (dyn callee) ghost name -> result name it records
 }
@@ -86,16 +88,18 @@ type SpecSet struct {
 	Props     map[string][]string  // property id -> function keys / lemma names
 	Bounded   map[string][]string  // property id -> "pkgdir:TestName" bounded stand-ins
 	Ghost     []QVar                // ghost state components (name, sort text)
+	Shared    map[string][]string   // pkgdir -> shared state components ("Type.field" or ghost name)
+	RG        map[string][]*Axiom   // pkgdir -> rely / guar / ginv clauses (Axiom.Kind)
 }
 
 func newSpecSet() *SpecSet {
-	return &SpecSet{Funcs: map[string]*SpecFunc{}, Contracts: map[string]*Contract{}, Props: map[string][]string{}, Bounded: map[string][]string{}}
+	return &SpecSet{Funcs: map[string]*SpecFunc{}, Contracts: map[string]*Contract{}, Props: map[string][]string{}, Bounded: map[string][]string{}, Shared: map[string][]string{}, RG: map[string][]*Axiom{}}
 }
 
 var directiveKW = map[string]bool{"pure": true, "opaque": true, "axiom": true, "lemma": true, "func": true, "extern": true,
 	"requires": true, "ensures": true, "modifies": true, "loop": true, "use": true, "names": true,
 	"expect_obligations": true, "ghost": true, "at": true, "trusted": true, "property": true, "noreturn": true,
-	"inline": true, "hint": true, "exit": true, "bounded": true, "callee": true}
+	"inline": true, "hint": true, "exit": true, "bounded": true, "callee": true, "shared": true, "rely": true, "guar": true, "ginv": true, "nocall": true}
 
 // readDirectives returns logical directive lines (continuations joined).
 func readDirectives(path string, prefixed bool) ([]string, []int, error) {
@@ -281,6 +285,25 @@ func (ss *SpecSet) loadSpecFile(path string, prefixed bool, pkgDir string) error
 					ss.Bounded[id] = append(ss.Bounded[id], pkgDir+":"+k)
 				}
 			}
+		case strings.HasPrefix(d, "shared "):
+			for _, k := range strings.Split(d[7:], ",") {
+				if k = strings.TrimSpace(k); k != "" {
+					ss.Shared[pkgDir] = append(ss.Shared[pkgDir], k)
+				}
+			}
+			cur, curLemma = nil, nil
+		case strings.HasPrefix(d, "rely ") || strings.HasPrefix(d, "guar ") || strings.HasPrefix(d, "ginv "):
+			rest := d[5:]
+			j := strings.Index(rest, ":")
+			if j < 0 {
+				return fail(i, "rely/guar/ginv needs `name: expr`")
+			}
+			e, err := mustExpr(i, rest[j+1:])
+			if err != nil {
+				return err
+			}
+			ss.RG[pkgDir] = append(ss.RG[pkgDir], &Axiom{Name: strings.TrimSpace(rest[:j]), Body: e, Src: strings.TrimSpace(rest[j+1:]), PkgDir: pkgDir, Kind: d[:4]})
+			cur, curLemma = nil, nil
 		case strings.HasPrefix(d, "property "):
 			rest := d[9:]
 			j := strings.Index(rest, ":")
@@ -434,6 +457,12 @@ func (ss *SpecSet) loadSpecFile(path string, prefixed bool, pkgDir string) error
 					cur.DynCallee = map[string]*Contract{}
 				}
 				cur.DynCallee[strings.TrimSpace(hdr)] = dc
+			case strings.HasPrefix(d, "nocall "):
+				for _, k := range strings.Split(d[7:], ",") {
+					if k = strings.TrimSpace(k); k != "" {
+						cur.NoCall = append(cur.NoCall, k)
+					}
+				}
 			case strings.HasPrefix(d, "exit hint "):
 				e, err := mustExpr(i, d[10:])
 				if err != nil {
